@@ -8,6 +8,8 @@ package dkgprops
 // message encrypted to the eon key, their DKGResult votes on chain match
 // their rows; all honest + every message inside its phase => all succeed; shuttermint
 // never answers an honest keyper's DKG message for a started eon with an error;
+// after every completed main-loop iteration every DKG of an honest keyper is in
+// the phase that the last applied block's height demands (per eon);
 // shuttermint never panics and its replicas agree.
 //
 // Derived oracles (signature prefix "derived-", stronger than the statement,
@@ -180,7 +182,14 @@ func genScenario(ch chooser) Scenario {
 		for i := range rotW {
 			rotW[i] = 1
 		}
-		sc.Overlap = &overlapSpec{At: lo + ch.Pick("overlapAt", w...), Rot: ch.Pick("overlapRot", rotW...)}
+		at := lo + ch.Pick("overlapAt", w...)
+		// in a third of these runs the second eon starts exactly one or two phase lengths
+		// after the first, so that phase changes of both eons (and the finalization of the
+		// first) fall into the same block
+		if k := ch.Pick("overlapAligned", 2, 1, 1); k > 0 {
+			at = k * L
+		}
+		sc.Overlap = &overlapSpec{At: at, Rot: ch.Pick("overlapRot", rotW...)}
 	}
 	// Template "one honest keyper misses its accusation": a Byzantine dealer
 	// that otherwise stays qualified gives honest keyper A a bad eval and A
@@ -249,7 +258,7 @@ func genScenario(ch chooser) Scenario {
 	return sc
 }
 
-const c07Rule = "case = (n in 3..5, t in 1..n, phase length L in {6,8,10} blocks, keyper-set order, check-in fork on/off, Byzantine subset of size <= n-t each with a strategy commitment{correct,none,wrong degree,duplicate,points at infinity} x eval per receiver{correct,wrong,none} x accusation{none,false against a drawn set} x apology{correct,wrong,none} x timing per message class{offset inside the phase, first block after the phase; accusations and apologies also 1-3 blocks before their phase}, and a block schedule for 3L+ blocks: order of the honest keypers' sync+send steps per block, per-step send budget {unlimited,1,2}, extra steps, position of the Byzantine transactions inside the block; 1/4 of the runs are unfair: an honest keyper takes no step for 1..L blocks; in 1/6 of the runs a second keyper set (the same keypers, rotated order, index 2) becomes due on the main chain at a drawn block of the dealing, accusing or apologizing phase of the first DKG, the keypers vote for it and a second eon's DKG overlaps the first; every oracle is then evaluated for both eons, Byzantine keypers act in the first eon only and are silent members of the second); honest keypers run smobserver.SyncAppWithDB + KeyperCore.handleOnChainChanges + fx.SendShutterMessages on their own pgfake database against the real ShutterApp behind faketm. Non-trivial = the chain carries >=1 accusation made in the accusing phase, or a Byzantine DKG message accepted outside its phase or answered 'seen' (duplicate), or a wrong-degree commitment. Distinct = hash of scenario + schedule."
+const c07Rule = "case = (n in 3..5, t in 1..n, phase length L in {6,8,10} blocks, keyper-set order, check-in fork on/off, Byzantine subset of size <= n-t each with a strategy commitment{correct,none,wrong degree,duplicate,points at infinity} x eval per receiver{correct,wrong,none} x accusation{none,false against a drawn set} x apology{correct,wrong,none} x timing per message class{offset inside the phase, first block after the phase; accusations and apologies also 1-3 blocks before their phase}, and a block schedule for 3L+ blocks: order of the honest keypers' sync+send steps per block, per-step send budget {unlimited,1,2}, extra steps, position of the Byzantine transactions inside the block; 1/4 of the runs are unfair: an honest keyper takes no step for 1..L blocks; in 1/6 of the runs a second keyper set (the same keypers, rotated order, index 2) becomes due on the main chain at a drawn block of the dealing, accusing or apologizing phase of the first DKG, the keypers vote for it and a second eon's DKG overlaps the first (in a third of them exactly one or two phase lengths later); every oracle is then evaluated for both eons, Byzantine keypers act in the first eon only and are silent members of the second); honest keypers run smobserver.SyncAppWithDB + KeyperCore.handleOnChainChanges + fx.SendShutterMessages on their own pgfake database against the real ShutterApp behind faketm. Non-trivial = the chain carries >=1 accusation made in the accusing phase, or a Byzantine DKG message accepted outside its phase or answered 'seen' (duplicate), or a wrong-degree commitment. Distinct = hash of scenario + schedule."
 
 func c07Labels(sc Scenario, st agreeStats, ref *refRecord, r *Run) (labels []string, nontrivial bool) {
 	labels = append(labels, fmt.Sprintf("n=%d", sc.N), fmt.Sprintf("t=%d", sc.T), fmt.Sprintf("L=%d", sc.L), fmt.Sprintf("byz=%d", len(sc.Byz)))
@@ -424,6 +433,9 @@ func runC07CaseX(rec *Recorder, sc Scenario, ch chooser, fail failFn, plain bool
 			labels = append(labels, "overlapping-eons:second-eon-did-not-start")
 		} else {
 			labels = append(labels, "overlapping-eons:second-eon-starts-in-"+[]string{"dealing", "accusing", "apologizing", "after-finalize"}[min(3, int((r.h1-r.h0)/sc.L))])
+			if (r.h1-r.h0)%sc.L == 0 {
+				labels = append(labels, "overlapping-eons:start-heights-a-multiple-of-the-phase-length-apart")
+			}
 			// the same oracles for the second eon (positions of keyper set 2;
 			// the Byzantine keypers are silent there)
 			r.switchToSecondEon()
@@ -600,11 +612,11 @@ func replayIndex() int {
 func TestC07_OverlappingEons(t *testing.T) {
 	rec := recorder("C07")
 	rec.AddRule(c07Rule)
-	rec.AddRule("overlapping-eons grid: all honest, n in {3,4}, t=2, L=8, keyper set 2 (rotated order) due at offsets {0,1,2,3,5,L+1,2L+1} from the first eon's start, plain fair schedule with send budget unlimited or 1 per step; both eons are evaluated with every oracle")
+	rec.AddRule("overlapping-eons grid: all honest, n in {3,4}, t=2, L=8, keyper set 2 (rotated order) due at offsets {0,1,2,3,5,L,L+1,2L,2L+1} from the first eon's start (L and 2L: both eons change phase in the same blocks and the first is finalized in a phase-change block of the second), plain fair schedule with send budget unlimited or 1 per step; both eons are evaluated with every oracle")
 	c07Assumptions(rec)
 	idx := 0
 	for _, n := range []int{3, 4} {
-		for _, at := range []int{0, 1, 2, 3, 5, 9, 17} {
+		for _, at := range []int{0, 1, 2, 3, 5, 8, 9, 16, 17} {
 			for _, budget := range []int{0, 1} {
 				idx++
 				if thorough() && !mySlice(idx) {
